@@ -105,40 +105,51 @@ def run_case(case, obs) -> None:  # noqa: C901, PLR0912, PLR0915
             q, p = m.random_point(rng, scale=0.8)
             eps0 = shrink * case["frac"] / intgen.frequency(m, q)
             errs, eerrs = [], []
+
+            def one_level(j):
+                eps = eps0 / 2**j
+                ispec["step_size"] = eps
+                integ = zoo.make_integrator(m, ispec)
+                st = integ.step(m.used_state(q, p, 1, how))
+                zq, zp = intgen.exact_flow(m, q, p, eps)
+                scale = 1 + max(np.max(np.abs(zq)), np.max(np.abs(zp)))
+                err = max(np.max(np.abs(st.pos - zq)), np.max(np.abs(st.mom - zp))) / scale
+                errs.append(err)
+                eerrs.append(abs(m.ref_h(st.pos, st.mom) - h0) / (1 + abs(h0)))
+                if j == 0:
+                    z2q, z2p = intgen.exact_flow(m, q, p, 2 * eps)
+                    zhq, zhp = intgen.exact_flow(m, q, p, eps / 2)
+                    e2 = max(np.max(np.abs(st.pos - z2q)), np.max(np.abs(st.mom - z2p))) / scale
+                    eh = max(np.max(np.abs(st.pos - zhq)), np.max(np.abs(st.mom - zhp))) / scale
+                    obs.count("closer_to_own_time_checks")
+                    if not (err < e2 and err < eh):
+                        obs.violation(f"wrong-time-advance:{type(integ).__name__}:{iname_sys}{label}",
+                                      f"one step of size eps={eps:.4g} is at distance {err:.3e} from flow(eps) but {e2:.3e} from "
+                                      f"flow(2 eps) and {eh:.3e} from flow(eps/2); sys={spec} int={ispec}")
+
+            def rates(vals):
+                return [float(np.log2(a / b)) for a, b in zip(vals, vals[1:]) if a > NOISE and b > NOISE]
+
             try:
                 h0 = m.ref_h(q, p)
                 for j in range(3):
-                    eps = eps0 / 2**j
-                    ispec["step_size"] = eps
-                    integ = zoo.make_integrator(m, ispec)
-                    st = integ.step(m.used_state(q, p, 1, how))
-                    zq, zp = intgen.exact_flow(m, q, p, eps)
-                    scale = 1 + max(np.max(np.abs(zq)), np.max(np.abs(zp)))
-                    err = max(np.max(np.abs(st.pos - zq)), np.max(np.abs(st.mom - zp))) / scale
-                    errs.append(err)
-                    eerrs.append(abs(m.ref_h(st.pos, st.mom) - h0) / (1 + abs(h0)))
-                    if j == 0:
-                        z2q, z2p = intgen.exact_flow(m, q, p, 2 * eps)
-                        zhq, zhp = intgen.exact_flow(m, q, p, eps / 2)
-                        e2 = max(np.max(np.abs(st.pos - z2q)), np.max(np.abs(st.mom - z2p))) / scale
-                        eh = max(np.max(np.abs(st.pos - zhq)), np.max(np.abs(st.mom - zhp))) / scale
-                        obs.count("closer_to_own_time_checks")
-                        if not (err < e2 and err < eh):
-                            obs.violation(f"wrong-time-advance:{type(integ).__name__}:{iname_sys}{label}",
-                                          f"one step of size eps={eps:.4g} is at distance {err:.3e} from flow(eps) but {e2:.3e} from "
-                                          f"flow(2 eps) and {eh:.3e} from flow(eps/2); sys={spec} int={ispec}")
+                    one_level(j)
+                # the property is about the limit eps -> 0: a state whose observed rate is still below 2 at these step sizes
+                # (competing error terms of opposite sign near a turning point, where the leading term is tiny) is followed
+                # for two more halvings and judged on its three finest levels
+                if min(rates(errs) + rates(eerrs), default=3.0) < 2.0:
+                    obs.count("states_followed_to_finer_steps")
+                    for j in (3, 4):
+                        one_level(j)
+                    errs, eerrs = errs[2:], eerrs[2:]
             except IntegratorError as e:
                 obs.count(f"skipped.{type(e).__name__}")
                 continue
             except FloatingPointError:
                 obs.inconc("reference-ode-failed")
                 continue
-            for a, b in zip(errs, errs[1:]):
-                if a > NOISE and b > NOISE:
-                    orders.append(float(np.log2(a / b)))
-            for a, b in zip(eerrs, eerrs[1:]):
-                if a > NOISE and b > NOISE:
-                    eorders.append(float(np.log2(a / b)))
+            orders += rates(errs)
+            eorders += rates(eerrs)
         return orders, eorders
 
     integ = zoo.make_integrator(m, {**ispec, "step_size": 0.1})
